@@ -37,7 +37,7 @@ func (p *c11) Init(tier string, seed int64) {
 }
 
 func (p *c11) N() int {
-	return p.nEnum + p.nUnknown + p.nRec + p.nMany + p.nRand + c11nNames + len(c11Special)
+	return p.nEnum + p.nUnknown + p.nRec + p.nMany + p.nRand + c11nNames + len(c11Special) + 2
 }
 
 // buildRec: terminating recursion. Every level reads its own parameters again after the inner call has
@@ -520,13 +520,55 @@ func (p *c11) build(i int) (*Program, string) {
 }
 
 func (p *c11) Describe(i int) interface{} {
+	if i >= p.N()-2 {
+		d := c11FromTwice(i - (p.N() - 2)).describe()
+		d["case"] = "one macro from-imported under two names"
+		return d
+	}
 	prog, sig := p.build(i)
 	d := prog.describe()
 	d["case"] = sig
 	return d
 }
 
+// c11FromTwice: one macro from-imported under two names in one statement - both names call it.
+func c11FromTwice(j int) *Program {
+	names := [][2]string{{"m", "a"}, {"m", "b"}}
+	first := gen.Expr(&gen.ECall{Fn: "a", Args: []gen.Expr{str("1")}})
+	if j == 1 {
+		names[0][1] = "m"
+		first = &gen.ECall{Fn: "m", Args: []gen.Expr{str("1")}}
+	}
+	ts := map[string]*gen.Template{"main": tpl("main", &gen.NFrom{Tpl: str("lib"), Names: names}, pr(first), tx("|"), pr(&gen.ECall{Fn: "b", Args: []gen.Expr{str("2")}})), "lib": tpl("lib", c11macro("m", 1))}
+	return &Program{Templates: ts, Main: "main", Ctx: map[string]interface{}{}}
+}
+
+func (p *c11) runFromTwice(res *fw.Result, j int) {
+	prog := c11FromTwice(j)
+	lib := runLib(prog, gen.Canon{}, false)
+	mod, _, inRegion, why := runModel(prog)
+	res.Evals = 1
+	res.AddClass("from-import-twice")
+	res.UniqueNT = 1
+	switch {
+	case !inRegion:
+		res.Fail("harness", "c11:from-twice:oor", "case left the model's region: "+why, prog.describe())
+	case lib.pan != nil:
+		res.Fail("panic", "c11:from-twice:panic", fmt.Sprintf("Execute panicked: %v", lib.pan), prog.describe())
+	case lib.err == nil && lib.out == mod.out:
+	case lib.err != nil && strings.Contains(lib.err.Error(), "ndeclared function") && lib.out == "":
+		// the failure on record (known_findings.json): the statement keeps one name per macro
+		res.Fail("output", "c11:from-import-of-one-macro-under-two-names", fmt.Sprintf("implementation error: %v; reference model output %q", lib.err, mod.out), prog.describe())
+	default:
+		res.Fail("output", fmt.Sprintf("c11:from-twice:%d", j), fmt.Sprintf("output %q (error: %v), reference model %q", lib.out, lib.err, mod.out), prog.describe())
+	}
+}
+
 func (p *c11) Run(i int) (res fw.Result) {
+	if i >= p.N()-2 {
+		p.runFromTwice(&res, i-(p.N()-2))
+		return
+	}
 	prog, sig := p.build(i)
 	// every third case is written with a line break between any two tokens (m ( 'a' , 2 )), every third without
 	// any blank that can be left out: a call is a call however it is laid out
